@@ -95,6 +95,18 @@ func c15CorpusCase(r *mon.Run, ci corpusItem) {
 		for _, k := range a2j.CommentTokens(praw) {
 			base += k
 		}
+		// the code is the same in the raw rendering too (gofmt may hide or repair what the raw text gets wrong)
+		gr, wr := a2j.CodeTokens(raw), a2j.CodeTokens(praw)
+		if len(gr) != len(wr) {
+			r.Violate("comment-alters-tokens", c, "%s: the NoFormat rendering has %d code tokens with comments and %d without", shortPath(name), len(gr), len(wr))
+		} else {
+			for i := range gr {
+				if gr[i] != wr[i] {
+					r.Violate("comment-alters-tokens", c, "%s: NoFormat rendering: code token %d is %q with comments and %q without", shortPath(name), i, gr[i], wr[i])
+					break
+				}
+			}
+		}
 	}
 	if total != n+base {
 		r.Violate("comment-count", c, "%s: %d comments injected next to %d of the program's own, %d comment tokens in the raw rendering", shortPath(name), n, base, total)
@@ -376,7 +388,7 @@ func c15FileCase(r *mon.Run, idx int64) {
 
 func runC15(r *mon.Run) {
 	r.SetRule("part 1: comment injection (own item / end of item / last item; Comment and Commentf) into Block, Defs, Struct, Interface, case bodies and the File of real and generated programs, 22 text shapes (code-looking, braces, quotes, unicode, multi-line, leading/trailing newline, '%', inner // and /*) each with a unique marker; judged on go/scanner token streams (formatted vs. the same program without comments) and on the raw rendering (text, style, count). part 2: file-level scenarios: 0-4 header comments x 0-4 package comments (incl. empty entries) x 11 canonical paths x bodies x imports x NoFormat, judged on ast.File.Doc, the comment groups above the package clause and the package-clause line. non-trivial = >=1 comment injected; distinct by (file, seed) / scenario text")
-	r.Assume("texts avoid the documented exclusions (leading // or /*, any */), \\r and build-constraint lines; one comment per line (no end-of-item comment on a Case(...).Block(...) item); text containment is judged on the NoFormat rendering because gofmt rewrites doc comment text itself")
+	r.Assume("texts avoid the documented exclusions (any */ inside text; text that begins with // or /* is only given in well-formed raw form: one block comment, optionally followed by blanks, or one line comment), \\r and build-constraint lines; one comment per line (no end-of-item comment on a Case(...).Block(...) item); text containment is judged on the NoFormat rendering because gofmt rewrites doc comment text itself")
 	c15NegControls(r)
 	c15Lifetime(r)
 	items := corpusList(r, "C15", 700, 200, 3000, 1)
